@@ -2,8 +2,10 @@
 CONSTANTS
   Designs <- DesignsEmit
   Growths <- G3
-  MaxNonUnit = 2
+  MaxNonUnit = 1
   LevelTriples <- TriplesEmit
+  BreakStep = 2
+  FromInput <- FromRef
   ExplicitTargets = TRUE
   Refusals = TRUE
   MaxLevel = 3
